@@ -16,7 +16,6 @@ Lemma rebuild_unfold n r q :
     | ELit l =>
         match l with
         | LPlaceHolder => Err Stuck
-        | LFloat x => Ok (ELit (LFloat (imm_round x)))
         | _ => Ok q
         end
     | EVar _ | EQualifiedVar _ => Ok q
@@ -126,7 +125,7 @@ Proof.
   - reflexivity.
   - apply lookup_comb_none_tr; [exact G | reflexivity].
   - reflexivity.
-  - cbn [mapM]. rewrite ev_unfold, imm_round_zero. reflexivity.
+  - cbn [mapM]. rewrite ev_unfold. reflexivity.
 Qed.
 
 Lemma params_rebuild n ps :
@@ -166,7 +165,7 @@ Proof.
   rewrite (mapM_ev_map n r (fun p => ELit (LFloat (if has_default p then float_one else float_zero)))
                        (fun p => VNum (if has_default p then float_one else float_zero))).
   - rewrite map_map. reflexivity.
-  - intros p. rewrite ev_unfold. destruct (has_default p); [rewrite imm_round_one | rewrite imm_round_zero]; reflexivity.
+  - intros p. rewrite ev_unfold. destruct (has_default p); reflexivity.
 Qed.
 
 Lemma default_params_ok (ps' : list (string * ty * option expr)) :
@@ -256,7 +255,7 @@ Proof.
   - (* ELit 1 *)
     intros N r c G HE. rewrite rebuild_unfold in HE. cbn zeta in HE. cbn [tc].
     destruct l; cbn [nf1] in N; try contradiction; injection HE as <-.
-    + unfold make_apply1. comb [VNum (imm_round q)]; [reflexivity|]. cbn [mapM]. rewrite ev_unfold. reflexivity.
+    + unfold make_apply1. comb [VNum q]; [reflexivity|]. cbn [mapM]. rewrite ev_unfold. reflexivity.
     + unfold make_apply1. comb [VInt z]; [reflexivity|]. cbn [mapM]. rewrite ev_unfold. reflexivity.
     + unfold make_apply1. comb [VStr s]; [reflexivity|]. cbn [mapM]. rewrite ev_unfold. reflexivity.
     + unfold make_apply0. comb (@nil value); reflexivity.
